@@ -103,6 +103,15 @@ func checkC04(R *Run) {
 	if fn := R.mustFn("(*hotline.handshake).Valid"); fn != nil {
 		R.analysed(fname(fn))
 		describe := func(f Fact) string {
+			if f.Kind == "eq" && f.Holds && f.C != nil {
+				// string(field[:]) == "TRTP"
+				if fld, ok := loadedField(f.V); ok {
+					if str, ok := constString(f.C); ok {
+						return fld + "==" + str
+					}
+				}
+				return ""
+			}
 			b, ok := f.V.(*ssa.BinOp)
 			if !ok || (b.Op != token.EQL && b.Op != token.NEQ) {
 				return ""
@@ -375,10 +384,12 @@ func checkC04(R *Run) {
 	{
 		loginArg := authCall.Call.Args[1]
 		pwArg := authCall.Call.Args[2]
-		okPw := P.requestFieldOf(pwArg) == "FieldUserPassword"
+		okPw := P.requestFieldOf(resolveLocal(pwArg)) == "FieldUserPassword"
 		R.check(okPw, "login-args", fname(fn)+": password argument", P.ipos(authCall), "password field of the login transaction", "the password checked is not the login transaction's password field")
 		var leaves []string
 		okLogin := true
+		guestOr := false
+		_ = guestOr
 		F := &Flow{P: P, Call: func(c *ssa.Call, idx int) ([]ssa.Value, bool) {
 			n := calleeName(&c.Call)
 			if n == "(*hotline.Field).DecodeObfuscatedString" {
@@ -387,6 +398,15 @@ func checkC04(R *Run) {
 					if gn, ok := globalName(g.Call.Args[1]); ok && gn == "hotline.FieldUserLogin" {
 						leaves = append(leaves, "login-field")
 						return nil, true
+					}
+				}
+			}
+			if strings.HasPrefix(n, "cmp.Or") && len(c.Call.Args) == 1 {
+				// cmp.Or(login, GuestAccount): the first operand unless it is the empty string
+				if first := varargElem(c.Call.Args[0], 0); first != nil {
+					if _, isConst := first.(*ssa.Const); !isConst {
+						guestOr = true
+						return []ssa.Value{c.Call.Args[0]}, true
 					}
 				}
 			}
@@ -455,7 +475,7 @@ func checkC04(R *Run) {
 				good := f2 == fn
 				if good {
 					g := callValue(st.Val)
-					good = g != nil && calleeName(&g.Call) == "(hotline.AccountManager).Get" && g.Call.Args[0] == loginArg && !reach[st.Block()]
+					good = g != nil && calleeName(&g.Call) == "(hotline.AccountManager).Get" && (g.Call.Args[0] == loginArg || resolveLocal(g.Call.Args[0]) == resolveLocal(loginArg)) && !reach[st.Block()]
 				}
 				R.check(good, "login-args", fname(f2)+": store ClientConn.Account", P.ipos(st), "account = Get(authenticated login), after authentication", "a connection's account is assigned outside the login sequence, before authentication, or from another login than the authenticated one")
 			})
@@ -581,4 +601,31 @@ func (R *Run) ruleAuthShape() {
 		R.check(okAll, "auth-shape", fname(af), P.pos(af.Pos()), "true only through bcrypt.CompareHashAndPassword(Get(login).Password, password) == nil", why)
 	}
 
+}
+
+// varargElem: element k of the slice a variadic call was given (`new [n]T (varargs)` filled by constant-index stores).
+func varargElem(sl ssa.Value, k int64) ssa.Value {
+	s, ok := sl.(*ssa.Slice)
+	if !ok {
+		return nil
+	}
+	a, ok := s.X.(*ssa.Alloc)
+	if !ok {
+		return nil
+	}
+	for _, r := range *a.Referrers() {
+		ia, ok := r.(*ssa.IndexAddr)
+		if !ok {
+			continue
+		}
+		if idx, ok := constInt(ia.Index); !ok || idx != k {
+			continue
+		}
+		for _, rr := range *ia.Referrers() {
+			if st, ok := rr.(*ssa.Store); ok {
+				return st.Val
+			}
+		}
+	}
+	return nil
 }
